@@ -39,7 +39,7 @@ def cval(s, j):
 def small_struct(rng, g, maxsize=None):
     for _ in range(50):
         t = g.agg(0)
-        if has_f80(t) or ctype_has_flex(t):
+        if ctype_has_flex(t):
             continue
         return t
     return g.agg(0)
@@ -204,8 +204,6 @@ def caller_src(sigs, rng):
                     body.append('%s r = %s;' % (cn, call))
                 elif ctxsel == 0:
                     body.append('%s r = %s;' % (cn, call))
-                elif rt.s == 'f80':      # a pending long double operand during a call is the open finding C06|probe|x87-live-across-call
-                    body.append('%s r; r = %s;' % (cn, call))
                 elif ctxsel == 1:       # call nested in an expression: pending temporaries change the push parity
                     body.append('volatile int one = 1; %s r = (one + 1 - 2) + %s;' % (cn, call))
                 elif ctxsel == 2:
@@ -238,7 +236,7 @@ int main(void) { long m = call_with_canaries(caller_entry); OUTV(999999, m); ret
 def gen_sigs(rng, n_random, quick):
     sigs = []
     k = 0
-    g = lambda **kw: ctype.Gen(rng, packed=False, aligned=False, alignas=False, flex=False, ldouble=False, zero_width=False, unnamed_bf=False,
+    g = lambda **kw: ctype.Gen(rng, packed=False, aligned=False, alignas=False, flex=False, ldouble=True, zero_width=False, unnamed_bf=False,
                                max_depth=kw.get('d', 2), max_members=kw.get('m', 4))
     fixed_structs = []
 
@@ -305,6 +303,19 @@ def gen_sigs(rng, n_random, quick):
         named = [Scalar(rng.choice(['i32', 'i64', 'ptr', 'f64', 'i8'])) for _ in range(rng.randrange(1, 4))]
         var = [Scalar(rng.choice(['i32', 'i64', 'u32', 'ptr', 'f64', 'f64', 'f32', 'i8', 'u16', 'bool', 'f80', 'u64'])) for _ in range(rng.choice([0, 1, 2, 4, 7, 9, 14]))]
         sigs.append(Sig(k, named, Scalar(rng.choice(['i32', 'f64', 'i64'])), var=var, tag='variadic'))
+        k += 1
+    # variadic with everything the named parameters can occupy (long double, structs of every class, more than the registers hold) and
+    # with structs among the unnamed arguments (fetched from the saved registers while they last, from the stack afterwards)
+    for _ in range(max(40, n_random // 4)):
+        named = []
+        for _ in range(rng.choice([1, 2, 3, 5, 8, 11])):
+            x = rng.random()
+            named.append(Scalar(rng.choice(['i32', 'i64', 'ptr', 'f64', 'f32', 'i8', 'f80'])) if x < 0.7 else small_struct(rng, g(d=rng.choice([1, 2]), m=rng.choice([1, 2, 3, 5]))))
+        var = []
+        for _ in range(rng.choice([1, 2, 4, 7, 9, 14])):
+            x = rng.random()
+            var.append(Scalar(rng.choice(['i32', 'i64', 'ptr', 'f64', 'f64', 'f80', 'u64'])) if x < 0.55 else small_struct(rng, g(d=rng.choice([1, 2]), m=rng.choice([1, 2, 3, 5]))))
+        sigs.append(Sig(k, named, Scalar(rng.choice(['i32', 'f64', 'i64'])), var=var, tag='variadic-structs'))
         k += 1
     return sigs
 
@@ -388,10 +399,51 @@ void caller_entry(void) {
 '''
 
 
+def va_list_interop(ctx, cc, work):
+    """va_list is part of the ABI: a list made by va_start on one side is read by va_arg on the other side (vprintf-style forwarding), with
+    named parameters of every class in front of the unnamed arguments and with structs of every register class among them.  The reference
+    library (rt/c06/va_lib.c) is always gcc-compiled; rt/c06/va_main.c is built by chibicc, gcc and clang and must print the same lines."""
+    d = os.path.join(core.VERIF, 'rt', 'c06')
+    lib = os.path.join(work, 'va_lib.o')
+    rc, o, e = core.sh(['gcc', '-O0', '-w', '-c', '-o', lib, os.path.join(d, 'va_lib.c')], timeout=120)
+    if rc != 0:
+        raise core.Inconclusive('va_lib.c does not compile: ' + e.decode()[-300:])
+    outs = {}
+    for kind, cmd in (('chibicc', [cc, '-c']), ('gcc', ['gcc', '-O0', '-w', '-c']), ('clang', ['clang', '-O0', '-w', '-c'])):
+        obj = os.path.join(work, 'va_main.%s.o' % kind)
+        exe = os.path.join(work, 'va_main.%s.exe' % kind)
+        rc, o, e = core.sh(cmd + ['-o', obj, os.path.join(d, 'va_main.c')], timeout=120)
+        if rc == 0:
+            rc, o, e = core.sh(['gcc', '-o', exe, obj, lib], timeout=120)
+        if rc != 0:
+            outs[kind] = ('build', e.decode('utf-8', 'replace'))
+            continue
+        rc, o, e = core.sh([exe], timeout=60)
+        outs[kind] = ('run:%s' % rc, o.decode('utf-8', 'replace'))
+    ctx.evaluations += 1
+    script = ('$CHIBICC -c -o m.o $VERIF/rt/c06/va_main.c && gcc -w -c -o l.o $VERIF/rt/c06/va_lib.c && gcc -o t m.o l.o && ./t > got.txt; gcc -w -o r $VERIF/rt/c06/va_main.c l.o && ./r > ref.txt; '
+              'cmp -s got.txt ref.txt && exit 0; diff got.txt ref.txt | head; exit 1')
+    if outs['gcc'][0] != 'run:0' or outs['clang'][0] != 'run:0':
+        raise core.Inconclusive('reference failed on the va_list interoperability program: %s' % (outs['gcc'][1][-200:] + outs['clang'][1][-200:]))
+    if outs['chibicc'][0] != 'run:0':
+        ctx.violation('C06|va_list|%s' % ('rejected' if outs['chibicc'][0] == 'build' else 'crash'), core.first_line(outs['chibicc'][1]) or outs['chibicc'][0], script=script)
+        return
+    tg, tc, tx = [dict(l.split(' ', 1) for l in outs[k][1].split('\n') if ' ' in l) for k in ('gcc', 'clang', 'chibicc')]
+    for k in sorted(tg):
+        if tc.get(k) != tg[k]:
+            ctx.count('va_list_cases_reference_ambiguous')
+            continue
+        ctx.count('va_list_cases')
+        ctx.saw('va_list:' + k)
+        if tx.get(k) != tg[k]:
+            ctx.violation('C06|va_list|%s' % k, '%s: chibicc-built side yields %s, gcc = clang %s' % (k, tx.get(k), tg[k]), script=script)
+
+
 def run(ctx):
     cc = ctx.build('plain')
     work = ctx.tmpdir('c06')
     rng = ctx.rng
+    va_list_interop(ctx, cc, work)
     ctx.rule = ('signature = parameter list over the psABI classes + return class (+ variadic tail); every scalar leaf carries a unique value; each signature runs in '
                 'gcc->gcc, clang->clang, chibicc->chibicc, chibicc->gcc, gcc->chibicc; grid = 23 argument classes x 8 GP x 10 SSE register-exhaustion states; '
                 'distinct = distinct (direction-independent) signature tags / parameter-class tuples')
